@@ -572,6 +572,8 @@ class NDNApp:
                 del self._pit[node_name]
             raise types.InterestTimeout()
         except aio.CancelledError:
+            if node.timeout(future) and self._pit.get(node_name) is node:
+                del self._pit[node_name]
             raise types.InterestCanceled()
         # ValidationError, InterestNack are passed to the parent caller
         return data_name, content, pkt_context
